@@ -69,6 +69,10 @@ def rand_spec(rng, min_r=1, max_r=4, min_c=1, max_c=4, values=None, density=None
     if mdk in ('text', 'num', 'tax', 'group'):
         omd = [rand_md(rng, mdk, i) for i in range(r)]
         smd = [rand_md(rng, mdk if mdk != 'tax' else 'text', i) for i in range(c)]
+    elif mdk == 'partial':
+        # some ids without any metadata (as add_metadata on a subset of the ids leaves them)
+        omd = [rand_md(rng, 'group', i) if rng.random() < 0.5 else {} for i in range(r)]
+        smd = [rand_md(rng, 'group', i) if rng.random() < 0.5 else None for i in range(c)]
     elif mdk == 'obs':
         omd = [rand_md(rng, 'group', i) for i in range(r)]
     elif mdk == 'samp':
